@@ -52,6 +52,7 @@ static op_t *ol_add(oplist_t *l, int kind) {
     return o;
 }
 
+static uint64_t g_prog_index;
 static void build_program(prog_t *p, rng_t *r, char *feat, size_t featn) {
     prog_add_source(p, 1, "crash-src");
     int nsig = (int) rng_range(r, 1, 3);
@@ -114,7 +115,10 @@ static void build_program(prog_t *p, rng_t *r, char *feat, size_t featn) {
     for (int i = 0; i < nanno; ++i) { op_t *a = ol_add(&lists[nl], OP_ANNO); a->id = 0; ts += (int64_t) rng_below(r, 3); a->ts = ts; a->y = NAN; a->atype = 1; a->stype = JLS_STORAGE_TYPE_STRING; a->dsize = (uint32_t) rng_range(r, 1, 20); a->dseed = rng_u64(r); }
     ++nl;
     int nuser = (int) rng_range(r, 0, 4);
-    for (int i = 0; i < nuser; ++i) { op_t *u = ol_add(&lists[nl], OP_USER); u->meta = (uint16_t) rng_below(r, 4096); u->stype = (uint8_t) rng_range(r, 1, 3); u->dsize = (uint32_t) rng_range(r, 1, 200); u->dseed = rng_u64(r); }
+    int big_user = (g_prog_index & 1) || rng_chance(r, 1, 4);   /* chunks whose end lies within the last bytes of a 4096-byte scan block of the copy's resynchronisation */
+    if (big_user) nuser = (int) rng_range(r, 3, 5);
+    for (int i = 0; i < nuser; ++i) { op_t *u = ol_add(&lists[nl], OP_USER); u->meta = (uint16_t) rng_below(r, 4096); u->stype = (uint8_t) rng_range(r, 1, 3); u->dsize = (uint32_t) rng_range(r, 1, 200); u->dseed = rng_u64(r);
+        if (big_user) u->dsize = (uint32_t) ((rng_chance(r, 1, 3) ? 8192 : 4096) - rng_range(r, 28, 68)); }
     ++nl;
     snprintf(feat + fn, featn - fn, "|late-def=%d|anno=%d|user=%d", late_def, nanno > 0, nuser > 0);
     op_t *ls[7]; size_t cn[7];
@@ -188,7 +192,10 @@ static int run_and_plan(plan_t *pl, rng_t *r, const char *path, const ctx_t *c) 
         uint32_t len = g_io.ev[ei].len;
         wcls = g_io.ev[ei].off >= fsize ? 1 : (len == 32 && g_io.ev[ei].off >= 32 ? 2 : 3);
         if (g_io.ev[ei].off + (int64_t) len > fsize) fsize = g_io.ev[ei].off + (int64_t) len;
-        if (c->partial_every > 1 && (k % (size_t) c->partial_every) != 0) continue;
+        /* torn header updates of large chunks (a resynchronising reader has to skip >= 4 KB) are always enumerated */
+        int big_patch = 0;
+        if (wcls == 2 && (size_t) g_io.ev[ei].off + 32 <= g_io.sh_n) { uint32_t pl32; memcpy(&pl32, g_io.sh + g_io.ev[ei].off + 20, 4); big_patch = pl32 >= 4000; }
+        if (c->partial_every > 1 && (k % (size_t) c->partial_every) != 0 && !big_patch) continue;
         if (len <= 40) { for (uint32_t q = 1; q < len; ++q) ADD(k, q); }
         else { uint32_t qs[6] = {1, 7, 8, len / 2, len - 5, len - 1}; for (int q = 0; q < 6; ++q) ADD(k, qs[q]); }
     }
@@ -344,7 +351,10 @@ static void image_case(uint64_t ii, void *vctx) {
         }
     }
     /* C17: unclosed original -> copy */
-    if (ic->c->copy_every && im->partial == 0 && im->k >= pl->k_def && (ii % (uint64_t) ic->c->copy_every) == 0) {
+    /* cut points between two writes every copy_every-th image; writes torn in the middle (torn appends, torn in-place header
+     * updates: the copy then has to resynchronise behind an unreadable chunk) every 4*copy_every-th, torn header updates always */
+    int torn_hdr = im->partial && (im->cls & 3) == 2;
+    if (ic->c->copy_every && im->k >= pl->k_def && (torn_hdr || (ii % (uint64_t) (im->partial ? 4 * ic->c->copy_every : ic->c->copy_every)) == 0)) {
         const char *src = v_path("unclosed.jls"), *dst = v_path("unclosed-copy.jls");
         img = NULL; n = iolog_image(im->k, im->partial, &img);
         write_file(src, img, n); free(img);
@@ -352,7 +362,8 @@ static void image_case(uint64_t ii, void *vctx) {
         rc = jls_copy(src, dst, NULL, NULL, NULL, NULL);
         v_api("");
         v_count("C17", "unclosed_copies", 1);
-        v_feature("C17", 1, "unclosed|levels=%d|%s", pl->levels, pl->feat);
+        v_feature("C17", 1, "unclosed|%s|levels=%d|%s", im->partial ? (torn_hdr ? "torn-header-update" : "torn-write") : "between-writes", pl->levels, pl->feat);
+        v_count("C17", im->partial ? (torn_hdr ? "unclosed_copies_torn_header_update" : "unclosed_copies_torn_write") : "unclosed_copies_between_writes", 1);
         if (rc) { snprintf(key, sizeof(key), "copy-error|rc=%d|unclosed", rc); v_violation("C17", key, wj, "jls_copy of an unclosed but readable file returned %d", rc); }
         else {
             dump_t dc, dorig;
@@ -362,7 +373,7 @@ static void image_case(uint64_t ii, void *vctx) {
             dump_keep_sequences(0);
             uint8_t skip[256]; memset(skip, 0, sizeof(skip));
             for (int s = 1; s < 256; ++s) if (pl->m.sig[s].defined && (pl->m.sig[s].omit_ever || (pl->m.sig[s].dt && pl->m.sig[s].dt->bits <= 8))) skip[s] = 1;  /* omitted blocks: known finding of closed copies */
-            dump_compare_prefix(&dorig, &dc, path, dst, "C17", "unclosed", skip);
+            dump_compare_prefix(&dorig, &dc, path, dst, "C17", torn_hdr ? "unclosed-torn-header-update" : "unclosed", skip);
             dump_free(&dc); dump_free(&dorig);
             jd_t d;
             if (!jd_load(&d, dst)) { jd_decode(&d); for (int i = 0; i < d.nerr && i < 3; ++i) { snprintf(key, sizeof(key), "rule|%s|copy-of-unclosed", d.err[i].rule); v_violation("C17", key, wj, "%s", d.err[i].msg); } jd_free(&d); }
@@ -379,6 +390,7 @@ static void run_case(uint64_t idx, void *vctx) {
     jls_quiet();
     plan_t pl;
     const char *path = v_path("crash-prog.jls");
+    g_prog_index = prog;
     if (run_and_plan(&pl, &r, path, c)) return;
     unlink(path);
     if (shard == 0) {
